@@ -769,7 +769,7 @@ class VM:
             if not isinstance(obj, JSObject):
                 raise JSTypeError("Cannot use 'in' operator on non-object")
             key_str = to_string(key)
-            self.stack.append(obj.has(key_str))
+            self.stack.append(self._has_property(obj, key_str))
 
         # Control flow
         elif op == OpCode.JUMP:
@@ -2425,6 +2425,26 @@ class VM:
                 self._invoke_setter(setter, obj, value)
             else:
                 obj.set(key_str, value)
+
+    def _has_property(self, obj: JSObject, key_str: str) -> bool:
+        """HasProperty: own data or accessor property (array index, length), or the
+        same on any object along the prototype chain."""
+        current = obj
+        while isinstance(current, JSObject):
+            if (
+                current.has(key_str)
+                or key_str in current._getters
+                or key_str in current._setters
+            ):
+                return True
+            if isinstance(current, JSArray):
+                if key_str == "length":
+                    return True
+                if key_str.isdigit() and str(int(key_str)) == key_str:
+                    if int(key_str) < len(current._elements):
+                        return True
+            current = current._prototype
+        return False
 
     def _delete_property(self, obj: JSValue, key: JSValue) -> bool:
         """Delete property from object."""
